@@ -10,10 +10,13 @@ Mixes == { <<"fall", "fall", "fall">>, <<"fall", "term", "fall", "rej">>, <<"eat
            \* "eatlate": matched non-terminal route, a later route needs more data and says no, fall-through; read late
            <<"eatlate", "fall">>, <<"eatlate">> }
 Grid == [mix : Mixes, consumer : {"fast", "slow", "absent"}, procs : {1, 2, 16},
-         slen : {0, 5, 300, 2048, 5000, 20000}, close : {"end", "early"}, pace : {0, 1}]
-QuickGrid == { g \in Grid : g.slen \in {5, 2048, 20000} /\ g.procs \in {1, 16} /\ g.pace = 0 }
+         slen : {0, 5, 300, 2048, 5000, 20000}, close : {"end", "early", "earlylate"}, pace : {0, 1}]
+\* "earlylate": closed early, the underlying listener's Accept learns of it 300 ms later (a listener closed by way of
+\* a deadline), the absent consumer starts accepting at once
+LateOK(g) == g.close = "earlylate" => (g.consumer = "absent" /\ g.mix \in { <<"fall", "fall", "fall">>, <<"fall">>, <<"fall", "term", "fall", "rej">> } /\ g.slen \in {5, 2048})
+QuickGrid == { g \in Grid : LateOK(g) /\ g.slen \in {5, 2048, 20000} /\ g.procs \in {1, 16} /\ g.pace = 0 }
 VARIABLE g
-Init == g \in (IF Tier = "quick" THEN QuickGrid ELSE Grid)
+Init == g \in (IF Tier = "quick" THEN QuickGrid ELSE { x \in Grid : LateOK(x) })
 Next == UNCHANGED g
 Emit == PrintT(<<"VOUT", ToJson(g)>>)
 =============================================================================
